@@ -83,8 +83,9 @@ var props = map[string]propCfg{
 		Quick:    tierCfg{Checks: 1200, Shards: 16, Guard: 15 * time.Minute},
 		Thorough: tierCfg{Checks: 48000, Shards: 16, Guard: 120 * time.Minute}},
 	"C11": {Level: "exploration", DeathIsViolation: true,
+		Fuzz:     []string{"FuzzDeliverTx"},
 		Quick:    tierCfg{Checks: 1600, Shards: 16, Guard: 15 * time.Minute},
-		Thorough: tierCfg{Checks: 64000, Shards: 16, Guard: 120 * time.Minute}},
+		Thorough: tierCfg{Checks: 64000, Shards: 16, Guard: 120 * time.Minute, FuzzTime: 180 * time.Second}},
 	"C12": {Level: "exploration",
 		Quick:    tierCfg{Checks: 3200, Shards: 16, Guard: 10 * time.Minute},
 		Thorough: tierCfg{Checks: 64000, Shards: 16, Guard: 90 * time.Minute}},
@@ -98,8 +99,9 @@ var props = map[string]propCfg{
 		Quick:    tierCfg{Checks: 96000, Shards: 16, Guard: 10 * time.Minute},
 		Thorough: tierCfg{Checks: 1600000, Shards: 16, Guard: 90 * time.Minute, Race: true}},
 	"C20": {Level: "exploration",
+		Fuzz:     []string{"FuzzTxDecode", "FuzzStdTxJSON", "FuzzAminoAccount", "FuzzAminoValidator", "FuzzPubKey", "FuzzJSONInt", "FuzzJSONDec", "FuzzDecFromStr", "FuzzParseCoins"},
 		Quick:    tierCfg{Checks: 32000, Shards: 16, Guard: 15 * time.Minute},
-		Thorough: tierCfg{Checks: 1600000, Shards: 16, Guard: 120 * time.Minute}},
+		Thorough: tierCfg{Checks: 1600000, Shards: 16, Guard: 120 * time.Minute, FuzzTime: 60 * time.Second}},
 	"C19": {Level: "exploration",
 		Quick:    tierCfg{Checks: 4800, Shards: 16, Guard: 15 * time.Minute},
 		Thorough: tierCfg{Checks: 160000, Shards: 16, Guard: 120 * time.Minute}},
@@ -505,6 +507,39 @@ func check(id, tier string) int {
 				why = "wall-clock guard reached"
 			}
 			fmt.Printf("INCONCLUSIVE shard %d: %s (exit %d)\n%s\n", s, why, r.exit, tail(r.out, 30))
+		}
+	}
+
+	// ---- native fuzz campaigns (thorough tier): a time box that expires without a crasher means "held"
+	fuzzStats := map[string]interface{}{}
+	if tc.FuzzTime > 0 && violations == 0 {
+		for _, target := range cfg.Fuzz {
+			failFile := filepath.Join(wd, "fuzz-"+target+".json")
+			os.Remove(failFile)
+			cmd := exec.Command("go", "test", "-tags", "verif", "-vet=off", "-run", "^$", "-fuzz", "^"+target+"$", "-fuzztime", tc.FuzzTime.String(), "./props")
+			cmd.Dir = root
+			cmd.Env = append(os.Environ(), "VERIF_FAIL="+failFile, "VERIF_KNOWN="+filepath.Join(root, "findings", "known.json"), "VERIF_WORK="+wd, "VERIF_TIER="+tier)
+			out, err := cmd.CombinedOutput()
+			execs := 0
+			for _, line := range strings.Split(string(out), "\n") {
+				if i := strings.Index(line, "execs: "); i >= 0 {
+					fmt.Sscanf(line[i+7:], "%d", &execs)
+				}
+			}
+			fuzzStats[target] = map[string]interface{}{"execs": execs, "fuzztime": tc.FuzzTime.String()}
+			if err != nil {
+				if fileExists(failFile) {
+					os.MkdirAll(filepath.Join(root, "replays"), 0755)
+					dst := filepath.Join(root, "replays", fmt.Sprintf("%s-%s.json", id, target))
+					copyFile(failFile, dst)
+					fmt.Printf("fuzz target %s found a failing input:\n%s\n", target, tail(out, 12))
+					fmt.Printf("VIOLATION property=%s replay=%s\n", id, dst)
+					violations++
+				} else {
+					inconclusive = true
+					fmt.Printf("INCONCLUSIVE fuzz target %s failed without a failure file:\n%s\n", target, tail(out, 20))
+				}
+			}
 		}
 	}
 
